@@ -28,8 +28,22 @@ type Value interface{}
 
 type FloatV struct {
 	Sym *Term   // Int-sorted term when symbolic (exact-int representation)
-	F   float64 // concrete value when Sym == nil
-	Mag float64 // magnitude bound for symbolic values
+	F   float64 // concrete value when Sym == nil && FP == nil
+	Mag float64 // magnitude bound for exact-int symbolic values
+	FP  *Term   // FP-sorted term (IEEE binary64) for general symbolic floats
+}
+
+func (f FloatV) isConc() bool { return f.Sym == nil && f.FP == nil }
+
+// asFP returns the IEEE binary64 term of any float value.
+func (f FloatV) asFP() *Term {
+	switch {
+	case f.FP != nil:
+		return f.FP
+	case f.Sym != nil:
+		return FFromInt(f.Sym)
+	}
+	return FPC(f.F)
 }
 
 type StrV struct {
@@ -279,6 +293,9 @@ func valString(v Value) string {
 	case *Term:
 		return x.String()
 	case FloatV:
+		if x.FP != nil {
+			return "fp:" + x.FP.String()
+		}
 		if x.Sym != nil {
 			return "f:" + x.Sym.String()
 		}
